@@ -170,6 +170,22 @@ GROUPS = {
              "  case some.inr e => obtain ⟨c, n, rfl⟩ := he e ho; by_cases hs : isSub c cException = true <;> metrics_eval <;> simp_all"),
         ],
     },
+    "spawn": {
+        "import": "Haiway.Bridge.Spawn", "open": "Haiway.MiniPy Haiway.Bridge.Spawn",
+        "defs": {
+            "gRun": Target("src/haiway/context/tasks.py", "TaskGroupContext", "run", ["function", "args", "kwargs"], {},
+                           {("cls._context", "get"): (102, [])},
+                           method_externals={"create_task": (160, ["$recv", "@0", "@context"])},
+                           ext_functions={"get_event_loop": (162, []), "copy_context": (163, [])},
+                           callables={"function": 161}),
+        },
+        "obligations": [
+            ("run_spawns", ["gRun"], "RunSpawns gRun",
+             "intro args w h1 h2 h3 he hg\n  unfold gRun\n"
+             "  rcases hv : w.var with _ | g <;> rcases ho : w.callOut with coro | e <;> (try (obtain ⟨c, n, rfl⟩ := he e ho)) <;>\n"
+             "    cases hr : w.groupRefuses <;> (try (obtain ⟨k, rfl⟩ := hg g hv)) <;> spawn_eval <;> (try simp_all)"),
+        ],
+    },
     "queue": {
         "import": "Haiway.Bridge.Queue", "open": "Haiway.MiniPy Haiway.Bridge.Queue",
         "defs": {
